@@ -45,6 +45,10 @@ type stepJ struct {
 	Unchanged  [][2]int `json:"unchanged"`
 	CBefore    []cmtJ   `json:"cbefore"`
 	CAfter     []cmtJ   `json:"cafter"`
+	// astdiff snapshots before and after the change and the Changed calls in between (only when asked for)
+	SnapFrom     string   `json:"snap_from,omitempty"`
+	SnapTo       string   `json:"snap_to,omitempty"`
+	ChangedCalls [][2]int `json:"changed_calls"`
 }
 
 type cmtJ struct {
@@ -108,7 +112,8 @@ func convSteps(steps []patch.VerifStep) []stepJ {
 	out := make([]stepJ, 0, len(steps))
 	for _, s := range steps {
 		j := stepJ{Prog: s.Prog, Index: s.Index, Name: s.Name, Comments: s.Comments,
-			Matched: s.Matched, ReplaceErr: s.ReplaceErr, Intervals: s.Intervals, Changed: s.Changed, Unchanged: s.Unchanged}
+			Matched: s.Matched, ReplaceErr: s.ReplaceErr, Intervals: s.Intervals, Changed: s.Changed, Unchanged: s.Unchanged,
+			SnapFrom: s.SnapFrom, SnapTo: s.SnapTo, ChangedCalls: s.ChangedCalls}
 		for _, c := range s.CommentsBefore {
 			j.CBefore = append(j.CBefore, cmtJ{c.Offset, c.Text})
 		}
